@@ -23,6 +23,8 @@ VARIANTS = {
     "c04tsan": (["-fsanitize=thread", "-DNDEBUG"], "-O1"),
     # the sorter under the deterministic scheduler: every translation unit force-includes the shim
     "c04d": (["-fsanitize=address,undefined", "-fno-sanitize-recover=all"], "-O0"),
+    # the same without the assertions of the library: the harness oracles (phase protocol, result) must see it
+    "c04dn": (["-fsanitize=address,undefined", "-fno-sanitize-recover=all", "-DNDEBUG"], "-O0"),
 }
 # watchdog marker of the harnesses (see harness/c04.cpp): fresh for every check run
 os.makedirs(os.path.join(core.BUILD, "C04"), exist_ok=True)
@@ -74,7 +76,7 @@ def build_c04(ctx, name="c04", sources=(), flags=(), repo_sources=(), sanitize=T
     os.makedirs(odir, exist_ok=True)
     base = [core.CXX, "-std=gnu++17", "-g", "-fno-omit-frame-pointer"] + san + ["-I" + core.REPO, "-I" + HDIR]
     jobs = []
-    if name == "c04d":
+    if name in ("c04d", "c04dn"):
         base += ["-include", SHIM]
         jobs.append((os.path.join(HDIR, "c04d.cpp"), opt))
     else:
@@ -215,6 +217,48 @@ def sort_case(rng, cid, reps, params=None, n=None, threads=None):
     return lines
 
 
+LP_LENGTHS = [100, 250, 255, 256, 257, 300, 1000]     # through the model; 70000 via `big ... prefix` (oracle only)
+
+
+def lp_tails(rng, n, alpha):
+    """tails behind a long common prefix: the MKQS / sample sort partitions (<, =, >) and the
+    group borders of insertion_sort_cache then lie at depth >= len(prefix)"""
+    k = rng.randrange(4)
+    if k == 0:      # random short tails
+        return [rstr(rng, alpha, 0, 12) for _ in range(n)]
+    if k == 1:      # a second shared stretch, then one differing byte, duplicates
+        mid = rstr(rng, alpha, 0, 9)
+        return [mid + rstr(rng, alpha, 0, 2) for _ in range(n)]
+    if k == 2:      # few distinct tails (large `=` parts), some longer than one key
+        d = [rstr(rng, alpha, 0, 20) for _ in range(rng.randint(2, 5))]
+        return [rng.choice(d) for _ in range(n)]
+    return [rstr(rng, alpha, 7, 9) if rng.random() < 0.5 else rstr(rng, alpha, 0, 30) for _ in range(n)]
+
+
+def lp_case(rng, cid, reps, L, params=None, rep=None, lcp=None, n=None, threads=None):
+    """sort case whose strings share a prefix of L characters (`px` line)"""
+    p = params or rng.choice(PARAMS_SMALL + ["def"])
+    reprs = REPR10 if p in ("def", "t2s8i4") else REPR4
+    rep = rep or rng.choice(reprs)
+    if n is None:
+        n = rng.choice([33, 40, 64, 100]) if p in ("def", "t4s64i16", "t2s16i8") else rng.choice([9, 17, 33, 40, 70])
+    alpha = rng.choice(ALPHAS[1:])
+    pat = rstr(rng, alpha, 1, 3)
+    thr = threads or rng.choice([1, 2, 3, 4])
+    lcp = rng.randrange(2) if lcp is None else lcp
+    lines = [f"case lp{cid}", f"cfg {p} {rep} {thr} {lcp} {reps}", f"px {hexs(pat)} {L}"]
+    tails = lp_tails(rng, n, alpha)
+    i = 0
+    while i < len(tails):
+        j = i
+        while j < len(tails) and tails[j] == tails[i]:
+            j += 1
+        lines.append(f"s {hexs(tails[i])}" + (f" {j - i}" if j - i > 1 else ""))
+        i = j
+    lines.append("go")
+    return lines
+
+
 def key_of(s, depth):
     w = s[depth:depth + 8]
     return int.from_bytes(w + b"\0" * (8 - len(w)), "big")
@@ -270,10 +314,19 @@ def det_case(rng, cid):
     p = rng.choice(DET_PARAMS)
     n = rng.choice([0, 1, 2, 3, 5, 8, 9, 12, 17, 20, 33, 40, 64])
     strs = gen_strings(rng, n)
+    px = None
+    if rng.random() < 0.08:       # long shared prefix (narrow LCP fields)
+        alpha = rng.choice(ALPHAS[1:])
+        px = f"px {hexs(rstr(rng, alpha, 1, 3))} {rng.choice([250, 255, 256, 257, 300])}"
+        strs = lp_tails(rng, max(n, 9), alpha)
     mode = rng.choice(["prng", "pct"])
     arg = rng.choice([0, 32, 128, 230]) if mode == "prng" else rng.choice([1, 2, 3, 5])
+    # flags: 1 = scheduling point after every atomic write / unlock, 2 = race-directed (check-then-act
+    # windows between two accesses of one thread to the same atomic get a priority change / a pause)
     lines = [f"case d{cid}", f"dcfg {p} {rng.choice([1, 2, 2, 3, 3, 4])} {rng.randrange(2)} {mode} "
-                             f"{rng.randrange(1, 10 ** 6)} {arg} {rng.choice([0, 1, 1])}"]
+                             f"{rng.randrange(1, 10 ** 6)} {arg} {rng.choice([0, 1, 1, 2, 2, 3, 3, 3])}"]
+    if px:
+        lines.append(px)
     i = 0
     while i < len(strs):
         j = i
@@ -293,15 +346,20 @@ def det_corpus():
     return cs
 
 
-def det_stage(ctx, cases, spec, label="detsched"):
+def det_stage(ctx, cases, spec, label="detsched", variant="c04d"):
     """Runs `cases` on the scheduler harness; compares order + LCP with the functional model and
     replays every event trace through the protocol transition system (driver op `trace`).
     Returns (stats, failures) with failures = [(case, message)]."""
-    hb, log = build_c04(ctx, name="c04d")
+    hb, log = build_c04(ctx, name=variant)
     if hb is None:
         return {"built": False}, [([], "detsched harness does not compile: " + log[-600:].replace("\n", " | "))]
     t = time.time()
-    res = core._run_impl_cases([hb, "run"], cases, 1500)
+    # one process per run: the sorter seeds its sampling PRNG with a heap address, so a run is a
+    # function of (input, schedule seed) only when it starts from a fresh process image (ASLR is
+    # switched off by the harness) -- this is what makes a replay file reproduce the schedule
+    from concurrent.futures import ThreadPoolExecutor
+    with ThreadPoolExecutor(max_workers=4) as ex:
+        res = list(ex.map(lambda c: core._run_impl_cases([hb, "run"], [c], 300)[0], cases))
     fails, dlines, idx = [], [], []
     steps = events = 0
     for ci, (c, (answers, viols, crash)) in enumerate(zip(cases, res)):
@@ -320,7 +378,7 @@ def det_stage(ctx, cases, spec, label="detsched"):
         events += len(parts[3].split())
         cfg = c[1].split()
         # the same input through the functional model, then the trace through the protocol model
-        dl = ["case", f"cfg {cfg[1]} uc {cfg[2]} {cfg[3]} 1"] + [l for l in c[2:] if l.startswith("s ")] + ["go", "trace " + parts[3]]
+        dl = ["case", f"cfg {cfg[1]} uc {cfg[2]} {cfg[3]} 1"] + [l for l in c[2:] if l.startswith(("s ", "px "))] + ["go", "trace " + parts[3]]
         dlines.append(dl)
         idx.append((ci, parts[0] + " | " + parts[1]))
     if dlines:
@@ -388,6 +446,27 @@ class C04(flow.Spec):
         # public API with the default parameters on small inputs (sequential path) ...
         for i in range(12 if quick else 100):
             cs.append(sort_case(rng, f"d{i}", reps, params="def"))
+        # long shared prefixes: depth_ reaches / passes every narrow integer width (uint8 LCP fields:
+        # 250..257, 300; uint16: 70000) -- every parameter set and representation, with and without LCP
+        combos = [(p, r) for p in PARAMS_SMALL + ["def"] for r in (REPR10 if p in ("def", "t2s8i4") else REPR4)]
+        if quick:
+            rng.shuffle(combos)
+            k = 0
+            for L in LP_LENGTHS:
+                cs.append(lp_case(rng, f"{L}a", 2, L, params="def", rep=combos[k][1] if combos[k][0] == "def" else None, lcp=1, n=rng.choice([40, 64])))
+                cs.append(lp_case(rng, f"{L}b", 2, L, params=rng.choice(PARAMS_SMALL), lcp=1))
+                k += 1
+            for i in range(6):
+                cs.append(lp_case(rng, f"r{i}", 2, rng.choice(LP_LENGTHS)))
+        else:
+            for ci, (p, r) in enumerate(combos):
+                for L in LP_LENGTHS:
+                    for lcp in (0, 1):
+                        cs.append(lp_case(rng, f"{ci}_{L}_{lcp}", 2, L, params=p, rep=r, lcp=lcp))
+        if round_no == 0:
+            lpb = [("def", "uc", 1, 64)] if quick else [(p, r, l, 48) for (p, r) in combos for l in (0, 1)]
+            for j, (p, r, l, n) in enumerate(lpb):
+                cs.append([f"case lpb{j}", f"big {p} {r} {rng.choice([1, 2, 3])} {l} 1 prefix {n} {seed * 17 + j} {rng.choice([2, 3, 255])} 70000"])
         # ... and on inputs large enough for the parallel step (generated inside the harness)
         big = [("equal", 1100000, 3, 3, 2, 0, "uc"), ("skew", 2200000, 3, 6, 2, 1, "cuc"),
                ("random", 1300000, 4, 10, 3, 1, "s")]
@@ -463,7 +542,20 @@ class C04(flow.Spec):
             ctx.violation(p, f"property no longer shown: {msg[:200]}", False)
         if ctx.quick():
             return cov
+        # the same schedules without the library's assertions (the harness oracles must do the work)
+        nstats, nfails = det_stage(ctx, dcases[:1200], self, label="detsched-ndebug", variant="c04dn")
+        cov["detsched_ndebug"] = nstats
+        cov["stages"].append("detsched-ndebug: 1200 of the runs on an NDEBUG build")
+        nreal = [(c, m) for c, m in nfails if not _is_corr(m)]
+        for k, (c, msg) in enumerate(nreal[:2]):
+            name = f"viol_{ctx.tier}_{ctx.seed}_detschednd{k + 1}.ops"
+            p = ctx.write_replay(name, ["stage: detsched-ndebug", "kind: property violated on the real code (NDEBUG) under a deterministic schedule",
+                                        "message: " + msg[:300], f"replay: python3 check.py C04 --replay replays/C04/{name}"], c)
+            ctx.violation(p, f"property fails on the implementation (deterministic scheduler, NDEBUG): {msg[:200]}", bool(c))
         cases = [c for c in getattr(self, "_cases0", []) if any(l == "go" or l.startswith("big") for l in c)]
+        # the long-prefix classes are many and slow under TSan: every 6th of them in these two stages
+        lp = [c for c in cases if c[0].startswith("case lp")]
+        cases = [c for c in cases if not c[0].startswith("case lp")] + lp[::6]
         for variant, label, sub in (("c04tsan", "tsan", 1), ("c04nd", "asan-ndebug", 2)):
             hb, log = build_c04(ctx, name=variant)
             if hb is None:
@@ -514,7 +606,7 @@ def replay(path):
     for l in open(path):
         if l.startswith("# stage:"):
             stage = l.split(":", 1)[1].strip()
-    if stage == "detsched":
+    if stage in ("detsched", "detsched-ndebug"):
         ctx = core.Ctx("C04", "quick", 0)
         lines = [l.rstrip("\n") for l in open(path)]
         for l in lines:
@@ -522,7 +614,7 @@ def replay(path):
                 print(l)
         core.lean_build(ctx, ["drv_c04"])
         cases = core.split_cases([l for l in lines if l.strip() and not l.startswith("#")])
-        stats, fails = det_stage(ctx, cases, SPEC)
+        stats, fails = det_stage(ctx, cases, SPEC, variant="c04dn" if stage == "detsched-ndebug" else "c04d")
         for c, m in fails:
             print(m)
         print("replay: " + ("FAILS" if fails else "passes"))
